@@ -642,6 +642,23 @@ def rule_any_copy_is_for_this_event(ctx: Ctx, rule: str = "C15.any"):
                 kw = {k.arg: show(k.value) for k in e.term.keywords}
                 rep.check(kw.get("event") == fn.params[1], rule, e.loc(), "the copy made for a state carries the event being defined", fn.key,
                           norm_stmt(e.node), kwargs=kw)
+                if rule == "C15.any":
+                    # ... and also the events the user gave the placeholder itself: `c.from_.any(event="other")` must declare `other`
+                    # on every non-final state exactly as `c.from_(a, b, event="other")` does (known finding F37 on the pinned tree)
+                    own_events = any(isinstance(x_, ast.Attribute) and x_.attr in ("_events", "events", "event") and show(x_.value) == fn.params[2]
+                                     for k_ in e.term.keywords if k_.arg == "event" for x_ in ast.walk(k_.value))
+                    if not own_events:
+                        rep.violation(rule, e.loc(), "an event given to the placeholder itself (`from_.any(event=...)`) is not carried by the per-state "
+                                      "copies: it is declared nowhere, unlike the same `event=` on an explicit `from_(a, b, ...)`", fn.key,
+                                      "events given to from_.any(event=...) are dropped by the expansion")
+                    # ... and stand where the explicit rendering would put them: `c.from_(a, b)` attaches its transitions when the expression
+                    # is evaluated (textual position), the expansion appends when the event is defined, i.e. after every transition
+                    # written in the class body (first-match order differs when a guarded transition shares the event; F38)
+                    appends = [c_ for c_ in p.calls() if c_.idx > e.idx and isinstance(c_.term.func, ast.Attribute) and c_.term.func.attr == "add_transitions"]
+                    if appends:
+                        rep.violation(rule, appends[0].loc(), "the expansion of from_.any() is appended to each state's transitions when the event is defined - "
+                                      "after the transitions the class body attached - instead of at the placeholder's textual position (first-match "
+                                      "order differs from the explicit rendering)", fn.key, "any() copies are appended at event-definition time")
     rep.floor(rule, "copy sites in AnyState._on_event_defined", n, 1)
 
 
